@@ -51,6 +51,9 @@ FailedC10(r) ==
             ELSE LET heap == HeapOf(r.out.cell)  mp == MapOf(r) IN
                  Clause("cell_structure_canonical", TreeOf(heap, r.out.root) = Edge(mp, r.w))
             \cup Clause("root_hash_ok", Has(r, "hash") => r.hash = C!TopHash(heap, C!InfoAll(heap), r.out.root))
+            \* the cell whose structure is compared is the first serialisation; every other serialisation of the same map (other
+            \* insertion orders, the same object serialised again after edits) must be that very tree
+            \cup Clause("every_serialisation_is_the_canonical_tree", \A j \in 1..Len(r.hashes) : r.hashes[j] = r.hashes[1])
       [] r.op = "parse_tree" ->
             LET heap == HeapOf(r.cell)
                 sp == ParseHeap(heap, r.root, r.w, <<>>, r.xw) IN
